@@ -251,6 +251,78 @@ async def run_c17(spec: dict[str, Any], hist: History, tr: Tracker) -> None:
         if await late.start():
             await tr.select(late, rw=True)
             tr.end(late)
+            sessions.append(late)
+        if hist.violations:
+            return
+        # phase C: every selection ends, each in one of the ways a selection
+        # can end (CLOSE, LOGOUT, selecting something else, EXAMINE instead,
+        # connection lost with or without EOF); deliveries arrive while
+        # nobody has the mailbox selected read-write; the next read-write
+        # SELECT must be given all of them \\Recent
+        await sessions[0].cmd(b'CREATE Elsewhere')
+        ended: list[str] = []
+        for s in sessions:
+            if not s.alive:
+                continue
+            how = rng.choice(['close', 'logout', 'other', 'examine', 'eof',
+                              'reset', 'failed-select'])
+            if tr.cur.get(s.conn.cid) is None and how == 'close':
+                how = 'logout'
+            ended.append(how)
+            tr.harvest(s)
+            s.retired = True            # type: ignore[attr-defined]
+            if how == 'close':
+                rc = await s.cmd(b'CLOSE')
+                if not rc.ok:
+                    await s.cmd(b'LOGOUT')
+            elif how == 'logout':
+                await s.cmd(b'LOGOUT')
+            elif how == 'other':
+                tr.end(s)
+                await s.select(b'Elsewhere')
+            elif how == 'failed-select':
+                tr.end(s)
+                await s.select(b'No/Such/Mailbox')
+            elif how == 'examine':
+                if not await tr.select(s, rw=False):
+                    await s.cmd(b'LOGOUT')
+            elif how == 'eof':
+                s.conn.feed_eof()
+            else:
+                s.conn.hard_reset()
+            if how != 'examine':
+                tr.end(s)
+        await loop.quiescent()          # type: ignore[attr-defined]
+        postman = Session(env, hist, 8, Sched(), spec['seed'] + 8)
+        if not await postman.start():
+            return
+        delivered: list[int] = []
+        for _ in range(rng.randint(1, 3)):
+            r = await postman.append(b'INBOX', [rng.choice(FLAGS)]
+                                     if rng.random() < 0.3 else None)
+            if r.ok and r.tagged is not None and \
+                    r.tagged.code == b'APPENDUID' and \
+                    isinstance(r.tagged.data, tuple):
+                delivered += list(r.tagged.data[1])
+        nxt = Session(env, hist, 7, Sched(), spec['seed'] + 7)
+        if delivered and await nxt.start() and \
+                await tr.select(nxt, rw=True):
+            sh = nxt.shadow
+            tr.count('mid_history_first_select_checks')
+            by_uid = {u: f for u, f in zip(sh.uids, sh.flags)}
+            missing = [u for u in delivered
+                       if not (by_uid.get(u) and b'\\recent' in by_uid[u])]
+            if missing:
+                hist.report(
+                    'unclaimed-recent-not-given-to-first-rw-select:'
+                    'after-deselection',
+                    'after every selection had ended (%s), UIDs %r were '
+                    'delivered while nobody had the mailbox selected '
+                    'read-write; the next read-write SELECT was not given '
+                    '%r flagged \\Recent' % (
+                        ', '.join(ended), delivered, missing),
+                    {'conn': nxt.conn.cid})
+            tr.end(nxt)
         for s in sessions:
             tr.end(s)
     finally:
@@ -303,6 +375,38 @@ async def script_first_select_maildir(hist: History, tr: Tracker) -> None:
         env.cleanup()
 
 
+async def script_ghost_selection(hist: History, tr: Tracker) -> None:
+    """FETCH, then a refused SELECT: the de-selected mailbox object must not
+    go on receiving the credit for new messages."""
+    env = await make_env('dict')
+    try:
+        await provision(env, hist, 2, random.Random(1))
+        a, b, c = (Session(env, hist, i, Sched(), i) for i in (1, 2, 3))
+        for s in (a, b, c):
+            await s.start()
+        await tr.select(a, rw=True)
+        tr.end(a)
+        await a.select(b'No/Such/Mailbox')
+        r = await b.append(b'INBOX')
+        uids = list(r.tagged.data[1]) if r.ok and r.tagged is not None \
+            and isinstance(r.tagged.data, tuple) else []
+        if await tr.select(c, rw=True):
+            tr.count('mid_history_first_select_checks')
+            by_uid = {u: f for u, f in zip(c.shadow.uids, c.shadow.flags)}
+            missing = [u for u in uids
+                       if not (by_uid.get(u) and b'\\recent' in by_uid[u])]
+            if missing or not uids:
+                hist.report('unclaimed-recent-not-given-to-first-rw-select:'
+                            'after-deselection',
+                            'after a refused SELECT had ended the only '
+                            'selection, UIDs %r were delivered; the next '
+                            'read-write SELECT was not given %r flagged '
+                            '\\Recent' % (uids, missing))
+        tr.end(c)
+    finally:
+        env.cleanup()
+
+
 class C17(Check):
     pid = 'C17'
     level = 'exploration'
@@ -310,7 +414,10 @@ class C17(Check):
             'optional EXAMINE, the first read-write SELECT, then 2-3 '
             'sessions concurrently selecting/examining/closing/reselecting '
             'while APPEND (also with a literal \\Recent flag) and COPY '
-            'arrive, under one external-event schedule; maildir runs with a '
+            'arrive, under one external-event schedule, then every '
+            'selection ends (CLOSE / LOGOUT / other mailbox / EXAMINE / '
+            'EOF / reset / refused SELECT), deliveries arrive and the next '
+            'read-write SELECT must be given them \\Recent; maildir runs with a '
             'shuffled os.listdir order; distinct = hash of the completion '
             'order; non-trivial = at least 2 read-write selections and one '
             'message told \\Recent')
@@ -320,7 +427,8 @@ class C17(Check):
         'POSIX leaves os.listdir order unspecified, so shuffling it is a '
         'legal environment']
     floors = {'selections_rw': 2000, 'messages_told_recent': 2000,
-              'recent_count_comparisons': 1500, 'first_select_checks': 500}
+              'recent_count_comparisons': 1500, 'first_select_checks': 500,
+              'mid_history_first_select_checks': 500}
 
     def cases(self, tier: str, seed: int) -> Iterable[dict[str, Any]]:
         n = 1500 if tier == 'quick' else 40000
@@ -345,6 +453,8 @@ class C17(Check):
         async def main(loop: L.CtlLoop) -> None:
             if spec.get('script') == 'first-select-maildir':
                 await script_first_select_maildir(hist, tr)
+            elif spec.get('script') == 'ghost-selection':
+                await script_ghost_selection(hist, tr)
             elif 'script' in spec:
                 await script_append_recent(hist, tr,
                                            spec.get('backend', 'dict'))
@@ -360,11 +470,14 @@ class C17(Check):
         counters.update(tr.counters)
         aborted = hist.aborted
         for s in hist.sessions:
-            if s.failed and aborted is None:
+            if s.failed and aborted is None and \
+                    not getattr(s, 'retired', False):
                 aborted = 'session-' + s.failed
         mine = ('recent-count-disagrees', 'recent-told-to-two-rw-selections',
                 'store-changes-recent',
-                'unclaimed-recent-not-given-to-first-rw-select')
+                'unclaimed-recent-not-given-to-first-rw-select',
+                'unclaimed-recent-not-given-to-first-rw-select:'
+                'after-deselection')
         viol = [v for v in hist.violations if v['mech'] in mine]
         other = [v['mech'] for v in hist.violations if v['mech'] not in mine]
         if other and not viol and aborted is None:
